@@ -19,18 +19,42 @@ package expr
 
 //@ func hashObject
 //@   params o ignoreFields ignoreNames ignoreTags seen
+//@   locals ph
 //@   property C13 C09
 //@   opt maprange deterministic
+//   -- the attributes are visited in ascending name order whatever the declaration order (the slice ranged
+//   -- over is the result of sorted), and every visit appends exactly the attribute's name and the hash of
+//   -- its type computed with the same flags, between the separators
+//@   loop 1 invariant* sorted.input: forall i int, j int :: 0 <= i && i < j && j < len(ranged(1)) ==> !(ranged(1)[j].Name < ranged(1)[i].Name)
+//@   loop 1 invariant* all.attributes: o != nil ==> len(ranged(1)) == len(old(load(o)))
+//@   loop 1 invariant acc: ph != nil && sinceEntry(ph) && (rangeindex == 0 - 1 ==> load(ph) == objectPrefix)
+//@   loop 1 step* appends.name.and.type.hash: ignoreTags ==> load(ph) == prev(1, load(ph)) + attributePrefix + ranged(1)[rangeindex].Name + attributeTypePrefix + hashSpec(ranged(1)[rangeindex].Attribute.Type, ignoreFields, ignoreNames, ignoreTags)
+//@   loop 1 step* appends.name.and.type.hash.then.tags: hasPrefix(load(ph), prev(1, load(ph)) + attributePrefix + ranged(1)[rangeindex].Name + attributeTypePrefix + hashSpec(ranged(1)[rangeindex].Attribute.Type, ignoreFields, ignoreNames, ignoreTags))
+//@   loop 2 invariant tags.extend: ph != nil && sinceEntry(ph) && hasPrefix(load(ph), prev(1, load(ph)) + attributePrefix + ranged(1)[rangeindex].Name + attributeTypePrefix + hashSpec(ranged(1)[rangeindex].Attribute.Type, ignoreFields, ignoreNames, ignoreTags))
 
 // Permutation invariance: the comparators handed to sort.Slice must order the slice being sorted
 // (the call-site precondition of sort.Slice, checked on the comparator's real body).
 //@ func hashUnion
 //@   params u ignoreFields ignoreNames ignoreTags seen
+//@   locals h
 //@   property C13
+//@   requires u != nil
+//@   sortkey 1 e: e.Name
+//@   loop 1 invariant* sorted.input: forall i int, j int :: 0 <= i && i < j && j < len(ranged(1)) ==> !(ranged(1)[j].Name < ranged(1)[i].Name)
+//@   loop 1 invariant* all.alternatives: len(ranged(1)) == len(old(u.Values))
+//@   loop 1 invariant acc: rangeindex == 0 - 1 ==> h == unionTypePrefix + old(u.TypeName)
+//@   loop 1 step* appends.name.and.type.hash: h == prev(1, h) + unionAttributePrefix + ranged(1)[rangeindex].Name + unionAttributeTypePrefix + hashSpec(ranged(1)[rangeindex].Attribute.Type, ignoreFields, ignoreNames, ignoreTags)
+//@   ensures* result.is.accumulator: result != nil && sinceEntry(result)
 
 //@ func sorted
 //@   params o
 //@   property C13
+//@   sortkey 1 e: e.Name
+//@   ensures* ascending.names: forall i int, j int :: 0 <= i && i < j && j < len(result) ==> !(result[j].Name < result[i].Name)
+//@   ensures* all.attributes: o != nil ==> len(result) == len(old(load(o))) && fresh(result)
+//@   ensures o == nil ==> len(result) == 0
+//@   modifies* nothing
+//@   frameprop C13
 
 // sortedKeys: a range over the map that only collects the keys, followed by sort.Strings. The order of the
 // result is fixed by the sort (assumed library postcondition), not by the iteration.
@@ -94,6 +118,16 @@ package expr
 //@   callspec SetAttribute params ut a
 //@       requires* only.copied.attributes: sinceEntry(a) || inMap(d.ats, a)
 //@       modifies utAttr
+//   -- the same discipline for the composite cases: the attribute installed in a copied array, map, union
+//   -- alternative or object field is one produced by DupAttribute, never the original's own
+//@   callspec (*Object).Set params o n att
+//@       requires o != nil
+//@       requires* only.copied.attributes: sinceEntry(att) || inMap(d.ats, att)
+//@       modifies cell(o), elems(load(o)), each(load(o), Attribute)
+//@   at fieldstore Array.ElemType assert* only.copied.attributes: sinceEntry(object) && (sinceEntry(value) || inMap(d.ats, value))
+//@   at fieldstore Map.KeyType assert* only.copied.attributes: sinceEntry(object) && (sinceEntry(value) || inMap(d.ats, value))
+//@   at fieldstore Map.ElemType assert* only.copied.attributes: sinceEntry(object) && (sinceEntry(value) || inMap(d.ats, value))
+//@   at fieldstore NamedAttributeExpr.Attribute assert* only.copied.attributes: sinceEntry(object) && (sinceEntry(value) || inMap(d.ats, value))
 
 //@ func (*dupper).DupAttribute
 //@   params d att
